@@ -51,7 +51,7 @@ func RunCaged(start, total, workers int, silence time.Duration, childArgs []stri
 			defer wg.Done()
 			from := offset
 			for from < total {
-				args := append(append([]string{}, childArgs...), "-from", strconv.Itoa(from), "-stride", strconv.Itoa(workers))
+				args := append(append([]string{}, childArgs...), "-from", strconv.Itoa(from), "-stride", strconv.Itoa(workers), "-until", strconv.Itoa(total))
 				cmd := exec.Command(os.Args[0], args...)
 				cmd.Env = os.Environ()
 				stdout, _ := cmd.StdoutPipe()
